@@ -12,10 +12,11 @@ Import ListNotations.
 Local Open Scope Z_scope.
 
 (* certValidity, clockSkewAllowance, the literal bound in verifyRawCerts, and
-   which RSA test verifyRawCerts performs: 0 = the six PKCS#1 v1.5
-   SignatureAlgorithm values only (the pinned tree), 1 = also RSA-PSS and an RSA
-   public key (fixes/C18-verifier-rsa-detection.diff) *)
-Record params := mkParams { pV : Z; pS : Z; pMaxLife : Z; pRsaRule : Z }.
+   which certificate of the presented chain verifyRawCerts inspects:
+   1 = rawCerts[len(rawCerts)-1] (the pinned tree), 0 = rawCerts[0], the
+   certificate TLS authenticates (fixes/C18-verifier-leaf-of-chain.diff).
+   All four are re-read from /repo on every run. *)
+Record params := mkParams { pV : Z; pS : Z; pMaxLife : Z; pLeafLast : Z }.
 
 (* validityMinusTwoSkew *)
 Definition pP (p : params) : Z := pV p - 2 * pS p.
@@ -134,10 +135,6 @@ Record xcert := mkX {
 
 Definition is_rsa (c : xcert) : bool := x_pubrsa c || (x_sig c =? 1) || (x_sig c =? 2).
 
-(* the code's "cert uses RSA" test *)
-Definition rsa_test (p : params) (c : xcert) : bool :=
-  if pRsaRule p =? 0 then x_sig c =? 1 else is_rsa c.
-
 Definition SHA2_256 : Z := 18.   (* multihash.SHA2_256 = 0x12 *)
 
 Definition mh_eqb (a b : Z * Z) : bool := (fst a =? fst b) && (snd a =? snd b).
@@ -145,18 +142,28 @@ Definition mh_mem (x : Z * Z) (l : list (Z * Z)) : bool := existsb (mh_eqb x) l.
 
 Inductive vres := VOk | VNoCert | VMismatch | VParse | VRsa | VTooLong | VNotValid.
 
-Definition verify_raw_certs (p : params) (chain : list xcert) (hashes : list (Z * Z)) : vres :=
-  match rev chain with
-  | [] => VNoCert
-  | leaf :: _ =>       (* rawCerts[len(rawCerts)-1] *)
+(* the certificate of the chain that is inspected *)
+Definition inspected (p : params) (chain : list xcert) : option xcert :=
+  if pLeafLast p =? 0 then hd_error chain else hd_error (rev chain).
+
+(* [rsa] = the "cert uses RSA" test.  The repaired tree rejects an RSA public
+   key and the nine RSA SignatureAlgorithm values (PKCS#1 v1.5 and PSS): is_rsa.
+   The parameter exists so that the theorems can also speak about the test the
+   tree had before the repair (Proofs_verify.old_rsa_test). *)
+Definition verify_with (rsa : xcert -> bool) (p : params) (chain : list xcert) (hashes : list (Z * Z)) : vres :=
+  match inspected p chain with
+  | None => VNoCert
+  | Some leaf =>
       if existsb (fun h => (fst h =? SHA2_256) && (snd h =? x_hash leaf)) hashes then
         if negb (x_parse leaf) then VParse
-        else if rsa_test p leaf then VRsa
+        else if rsa leaf then VRsa
         else if pMaxLife p <? x_na leaf - x_nb leaf then VTooLong
         else if (0 <? x_nb leaf) || (x_na leaf <? 0) then VNotValid
         else VOk
       else VMismatch
   end.
+
+Definition verify_raw_certs := verify_with is_rsa.
 
 (* ---- upgrade(): the Noise early-data callback ----------------------------- *)
 (* every hash used to dial must be among the hashes the server sent *)
